@@ -1,6 +1,7 @@
 mod addr;
 mod common;
 mod kv;
+mod tree;
 
 use common::*;
 
@@ -11,6 +12,13 @@ fn usage() -> ! {
 
 fn run(id: &str, ctx: &Ctx) -> i32 {
     match id {
+        "C01" => tree::checks::run_c01(ctx),
+        "C02" => tree::checks::run_c02(ctx),
+        "C03" => tree::checks::run_c03(ctx),
+        "C04" => tree::checks::run_c04(ctx),
+        "C05" => tree::checks::run_c05(ctx),
+        "C10" => tree::checks::run_c10(ctx),
+        "C13" => tree::checks::run_c13(ctx),
         "C06" => kv::run_c06(ctx),
         "C07" => kv::run_c07(ctx),
         "C18" => addr::run_c18(ctx),
@@ -26,6 +34,7 @@ fn replay(path: &str) -> i32 {
     ctx.replay_mode = true;
     let case = &v["case"];
     match id.as_str() {
+        "C01" | "C02" | "C03" | "C04" | "C05" | "C10" | "C13" if case["engine"] == "tree" => tree::checks::replay(&ctx, case),
         "C06" => kv::replay_c06(&ctx, case),
         "C07" => kv::replay_c07(&ctx, case),
         "C18" => addr::replay_c18(&ctx, case),
@@ -50,11 +59,55 @@ fn main() {
     if args.len() < 3 {
         usage();
     }
+    // error values of the subject (anyhow) capture a backtrace under a global lock when these are
+    // set, which serialises all worker threads; the harness never needs them
+    std::env::set_var("RUST_BACKTRACE", "0");
+    std::env::set_var("RUST_LIB_BACKTRACE", "0");
     install_silent_panic_hook();
     if let Ok(n) = std::env::var("VERIF_THREADS") {
         if let Ok(n) = n.parse::<usize>() {
             rayon::ThreadPoolBuilder::new().num_threads(n).build_global().ok();
         }
+    }
+    if args[1] == "counts" {
+        use tree::prog::Grammar;
+        for (name, g) in [("core", Grammar::new(1, 1, 2, 2, 10)), ("rich", Grammar::new(1, 1, 8, 7, 7)), ("dataev", Grammar::new(12, 12, 2, 3, 6)), ("funds", Grammar::new(1, 1, 1, 10, 7))] {
+            let v: Vec<String> = (1..=10).filter(|n| *n <= match name { "core" => 10, "rich" => 7, "dataev" => 6, _ => 7 }).map(|n| format!("<={}:{}", n, g.count_upto(n))).collect();
+            println!("{} {}", name, v.join(" "));
+        }
+        return;
+    }
+    if args[1] == "bench" {
+        use std::time::Instant;
+        use tree::families::*;
+        let ctx = Ctx::new("C02", Tier::Quick);
+        let mut st = tree::driver::TreeStats::default();
+        let t0 = Instant::now();
+        let starts = tree::driver::build_starts(&ctx, &mut st);
+        println!("build_starts {:?}", t0.elapsed());
+        let core = Core::new(1, 5);
+        tree::driver::with_world(false, |world| {
+            let ad = Addrs::of(world);
+            let n = core.total();
+            let (mut tr, mut tm, mut tc, mut tg) = (0f64, 0f64, 0f64, 0f64);
+            for i in 0..n {
+                let t = Instant::now();
+                let p = std::rc::Rc::new(core.program(i, &ad));
+                tg += t.elapsed().as_secs_f64();
+                let t = Instant::now();
+                let real = world.run_real(&starts.genesis, &p);
+                tr += t.elapsed().as_secs_f64();
+                let t = Instant::now();
+                let model = world.run_model(&starts.genesis, &p);
+                tm += t.elapsed().as_secs_f64();
+                let t = Instant::now();
+                let d = tree::cmp::compare(world, &p, &real, &model);
+                tc += t.elapsed().as_secs_f64();
+                assert!(d.is_empty());
+            }
+            println!("n={} gen={:.3}s real={:.3}s model={:.3}s cmp={:.3}s  cache hits={} misses={}", n, tg, tr, tm, tc, world.obs_cache_hits, world.obs_cache_misses);
+        });
+        return;
     }
     let code = if args[1] == "replay" {
         replay(&args[2])
